@@ -83,6 +83,26 @@ impl Builder {
             None
         };
 
+        // The spectrum to be created has one axis per population: with a few dozen populations
+        // the number of entries overflows, or cannot be allocated, and creating it would abort
+        let shape = projection
+            .as_ref()
+            .map(|projection| projection.project_to().clone().into_shape())
+            .unwrap_or_else(|| sample_map.shape());
+        let allocatable = shape
+            .iter()
+            .try_fold(1usize, |acc, &n| acc.checked_mul(n))
+            .map_or(false, |n| Vec::<f64>::new().try_reserve_exact(n).is_ok());
+        if !allocatable {
+            return Err(Error::Io(io::Error::new(
+                io::ErrorKind::InvalidInput,
+                format!(
+                    "spectrum with {} dimensions is too large to be created",
+                    shape.dimensions()
+                ),
+            )));
+        }
+
         Ok(super::Reader::new_unchecked(reader, sample_map, projection))
     }
 
